@@ -43,7 +43,7 @@ FMT = dict(
 
 def plan(tier, seed):
 	nsh = 16 if tier == 'quick' else 64
-	return [('t_files', dict(tier=tier, shard=s, nshards=nsh)) for s in range(nsh)] + [('t_default_spec', dict()), ('t_histories', dict(depth=3 if tier == 'quick' else 4))]
+	return [('t_files', dict(tier=tier, shard=s, nshards=nsh)) for s in range(nsh)] + [('t_default_spec', dict()), ('t_histories', dict(depth=3 if tier == 'quick' else 4))] + [('t_big', dict(which=w)) for w in range(3)]
 
 
 def render(contigs, orient, fmt):
@@ -181,6 +181,56 @@ def t_default_spec():
 	return sh
 
 
+def t_big(which):
+	"""Files larger than any I/O buffer: (0) 3000 short records, (1) one 300 kB contig with occurrences every ~100 letters, (2) 40 contigs of 20 kB -
+	rendered with several line widths / line endings / compression (single- and multi-member gzip with members cut mid-line); the signature must
+	equal the union of per-contig model signatures whatever the rendering."""
+	import random
+	sh = Shard()
+	rnd = random.Random(4242 + which)
+	ks = fixtures.kspec(11, 'ATGAC')
+
+	def rand_seq(n):
+		return ''.join(rnd.choice('ACGT') for _ in range(n))
+	if which == 0:
+		contigs = [rand_seq(rnd.randrange(5, 60)) + ('ATGAC' + rand_seq(11) if i % 3 == 0 else '') + rand_seq(rnd.randrange(0, 20)) for i in range(3000)]
+	elif which == 1:
+		contigs = [''.join(rand_seq(90) + 'ATGAC' + rand_seq(11) for _ in range(2800))]
+	else:
+		contigs = [''.join(rand_seq(180) + ('GTCAT' if j % 2 else 'ATGAC') + rand_seq(15) for j in range(100)) for _ in range(40)]
+	exp = sorted(set().union(*[set(R.ref_signature(11, b'ATGAC', [c.encode()])) for c in contigs]))
+	fmts = []
+	for width in ('60', '1', '7', 'L', '8191', '8192', '65536'):
+		for eol in ('lf', 'crlf'):
+			for gz in ('no', 'yes', 'multi-member'):
+				if width == '1' and which != 0:
+					continue          # one letter per line on 300 kB: slow and covered by the small files
+				fmts.append(dict(case='alternating' if (len(fmts) % 3 == 0) else 'upper', width=width, eol=eol, final='no' if len(fmts) % 2 else 'yes', gz=gz, name='big.fa' if gz == 'no' else 'big.fasta.gz'))
+	with fixtures.workdir('c06b') as d:
+		for fmt in fmts:
+			seqs = render(contigs, [0] * len(contigs), fmt)
+			path = os.path.join(d, fmt['name'])
+			write(path, seqs, fmt)
+			sh.evals += 1
+			case = dict(subset='big', which=which, order=[], orient=[], fmt=dict(fmt), k=11, prefix='ATGAC')
+			try:
+				got = sig_of(path, ks)
+			except Exception as e:
+				sh.violation('parse-failed', case, len(exp), repr(e))
+				continue
+			finally:
+				os.unlink(path)
+			if got.tolist() != exp:
+				missing = sorted(set(exp) - set(got.tolist()))[:3]
+				extra = sorted(set(got.tolist()) - set(exp))[:3]
+				sh.violation('not-union-of-contig-signatures', case, dict(n=len(exp)), dict(n=len(got), missing=missing, extra=extra))
+				continue
+			sh.nontrivial += 1
+			sh.count('big_files')
+	sh.sample(dict(family='big', which=which, contigs=len(contigs), total_letters=sum(map(len, contigs)), kmers=len(exp), formats=len(fmts)))
+	return sh
+
+
 def t_histories(depth, only=None):
 	"""File-level call histories in one thread: every sequence of {good file A, good file B, a file that fails only after 1500 records were parsed
 	(undecodable byte late in the file / truncated gzip stream)}: a good file's signature must not depend on what was parsed before."""
@@ -228,10 +278,13 @@ def finalize(agg, tier):
 	agg.require('genomes_where_joining_contigs_would_differ', 10)
 	agg.require('variants_with_reverse_complemented_contig', 100)
 	agg.require('good_files_after_a_failed_parse', 10)
+	agg.require('big_files', 30)
 
 
 def replay(case, kind=None):
 	sh = Shard()
+	if case['subset'] == 'big':
+		return [v for v in t_big(case['which']).violations if v['case']['fmt'] == case['fmt']][:1]
 	if case['subset'] == 'history':
 		return [v for v in t_histories(len(case['history']), only=case['history']).violations if v['case']['k'] == case['k']][:1]
 	if case['subset'] == 'default-spec':
